@@ -13,7 +13,3 @@ Theorem C31_bag_order_dependent : bag_to_dict rel01 [1%nat; 0%nat] 1%nat = Some 
 Proof. split; vm_compute; reflexivity. Qed.
 Print Assumptions C31_bag_order_dependent.
 
-(* bag-new-object-keyed-None: two new objects with automatic keys have no key before the flush; they share the result key None *)
-Theorem C31_bag_keys_refuted : ~ NoDup (bag_keys [@None nat; None]).
-Proof. intros H. inversion H as [|x l Hx Hl]; subst. apply Hx. now left. Qed.
-Print Assumptions C31_bag_keys_refuted.
